@@ -50,6 +50,10 @@ func c20Hook(point string) {
 	}
 }
 
+func isLockState(st string) bool {
+	return st == "sync.Mutex.Lock" || st == "sync.RWMutex.Lock" || st == "sync.RWMutex.RLock"
+}
+
 func liveKey(ms []ref.Msg) string {
 	var sb strings.Builder
 	for _, m := range ms {
@@ -93,7 +97,12 @@ func c20ConcOne(cfg *RunCfg, rep *Reporter, cov *Cov, idx int) bool {
 		rep.Inconclusive("c20conc open: " + errText(err))
 		return false
 	}
-	defer func() { kClose(l) }()
+	stuck := false // a deadlocked handle cannot be closed either
+	defer func() {
+		if !stuck {
+			kClose(l)
+		}
+	}()
 	// 4-6 segments of 2-4 messages
 	t := baseTime
 	var live []ref.Msg
@@ -169,8 +178,10 @@ func c20ConcOne(cfg *RunCfg, rep *Reporter, cov *Cov, idx int) bool {
 	hold := &bkHold{point: point, nth: nth, arrived: make(chan struct{}), release: make(chan struct{})}
 	var bErr error
 	bDone := make(chan struct{})
+	bGch := make(chan int64, 1)
 	go func() {
 		g := goid()
+		bGch <- g
 		bkHolds.Store(g, hold)
 		defer bkHolds.Delete(g)
 		bErr = guard(func() error { return l.Backup(bdir) })
@@ -220,6 +231,42 @@ func c20ConcOne(cfg *RunCfg, rep *Reporter, cov *Cov, idx int) bool {
 			time.Sleep(50 * time.Microsecond)
 		}
 		close(hold.release)
+	}
+	// Backup and the Deletes waiting for each other: decided on the goroutine states (both parked on a
+	// lock of the library in 100 consecutive snapshots, nobody else is using this handle), not on time
+	bGid := <-bGch
+	both := 0
+	for polls := 0; both < 100; polls++ {
+		if polls > 60000 {
+			stuck = true
+			rep.Inconclusive("c20conc: Backup did not return after its pause point was released (watchdog, not a verdict)")
+			return held
+		}
+		select {
+		case <-bDone:
+			both = -1
+		default:
+		}
+		if both < 0 {
+			break
+		}
+		ws := waitStates()
+		b, bok := ws[bGid]
+		d, dok := ws[dGid]
+		if bok && dok && isLockState(b[0]) && isLockState(d[0]) {
+			both++
+		} else {
+			both = 0
+		}
+		time.Sleep(2 * time.Millisecond)
+	}
+	if both >= 100 {
+		stuck = true
+		ws := waitStates()
+		replay["backup_goroutine"] = ws[bGid][0] + " in " + ws[bGid][1]
+		replay["delete_goroutine"] = ws[dGid][0] + " in " + ws[dGid][1]
+		rep.Report(Violation{Property: "C20", Sig: "histmon|backup-vs-delete:deadlock", What: fmt.Sprintf("a Backup (held at %s #%d, then released) and a Delete issued during it wait for each other's locks: Backup never returns (backup: %s in %s; delete: %s in %s)", point, nth, ws[bGid][0], ws[bGid][1], ws[dGid][0], ws[dGid][1]), Replay: replay})
+		return held
 	}
 	<-bDone
 	select {
